@@ -17,12 +17,17 @@ Decidable == SideNum(r, R.p, R.a, R.b, R.c) # 0
 P_Setup == R.face_ok /\ R.exact /\ R.others_zero /\ R.apex_zero
 \* equal and opposite: whatever was applied adds up to zero over the node and the three corners
 P_Reciprocal == R.sum_zero
-\* nothing beyond the cut-offs.  The run uses two DIFFERENT cut-offs (R.cut2: the range of the repulsion rule of the specification,
-\* R.cut2a: the adhesion cut-off -- four times larger in the spring model, equal in the coupling models, whose repulsion cut-off is
-\* the smaller one): no force at all beyond the larger, and the spring model does not PUSH beyond its repulsion cut-off
-MaxCut2 == IF R.cut2a > R.cut2 THEN R.cut2a ELSE R.cut2
-P_ShortRanged == /\ ~InRange(r, MaxCut2) => (R.fn = Zero /\ R.fa = Zero /\ R.fb = Zero /\ R.fc = Zero /\ ~R.coupled)
-                 /\ (R.model = 0 /\ ~InRange(r, R.cut2)) => Dot(R.fn, DScaled(r, R.p, R.a, R.b, R.c)) <= 0
+\* nothing beyond the cut-offs.  The run uses two DIFFERENT cut-offs: R.cut2 is the squared range of the repulsion rule of the
+\* specification; the squared adhesion cut-off is R.adh2n / R.adh2d (4 cut2 or cut2 / 4 in the spring model, cut2 or cut2 / 4 in the
+\* coupling models, whose repulsion range is the larger of their two cut-offs).
+InAdh == r.d2n * R.adh2d < R.adh2n * r.d2d
+InAny == InRange(r, R.cut2) \/ InAdh
+NoForce == R.fn = Zero /\ R.fa = Zero /\ R.fb = Zero /\ R.fc = Zero
+P_ShortRanged == /\ ~InAny => (NoForce /\ ~R.coupled)
+                 \* on the allowed side the spring model only knows adhesion: nothing beyond the adhesion cut-off
+                 /\ (R.model = 0 /\ Decidable /\ ~Forbidden(R.t1, R.t2, r, R.p, R.a, R.b, R.c) /\ ~InAdh) => NoForce
+                 \* a coupling is only ever created within the adhesion cut-off
+                 /\ R.coupled => InAdh
 \* an overlapping pair is pushed apart with exactly the forces of the specification
 P_Repulsion == (Decidable /\ Dec = "repulsion") => (R.fn = ForceNode(r, R.p, R.a, R.b, R.c) /\ R.fa = ForceA(r, R.p, R.a, R.b, R.c)
                                      /\ R.fb = ForceB(r, R.p, R.a, R.b, R.c) /\ R.fc = ForceC(r, R.p, R.a, R.b, R.c))
